@@ -48,6 +48,12 @@ func syncInvoker(info *types.Info, call *ast.CallExpr) bool {
 // litEntry computes the lockset a function literal starts with: the enclosing body's lockset
 // at the literal when it is invoked synchronously there, otherwise empty.
 func litEntryLocks(p *Prog, info *types.Info, encl *ast.BlockStmt, lk *Locks, fl *Flow, lit *ast.FuncLit) LockSet {
+	ls, _ := litEntryLocksSync(p, info, encl, lk, fl, lit)
+	return ls
+}
+
+// litEntryLocksSync also reports whether the literal runs synchronously inside its host body.
+func litEntryLocksSync(p *Prog, info *types.Info, encl *ast.BlockStmt, lk *Locks, fl *Flow, lit *ast.FuncLit) (LockSet, bool) {
 	sync := false
 	var at ast.Node = lit
 	for _, n := range PathTo(encl, lit) {
@@ -65,22 +71,92 @@ func litEntryLocks(p *Prog, info *types.Info, encl *ast.BlockStmt, lk *Locks, fl
 			}
 		case *ast.GoStmt:
 			if v.Call != nil && Unparen(v.Call.Fun) == ast.Expr(lit) {
-				return LockSet{}
+				return LockSet{}, false
 			}
 		case *ast.DeferStmt:
 			if v.Call != nil && Unparen(v.Call.Fun) == ast.Expr(lit) {
 				// runs at exit: only locks whose release is itself deferred earlier would still be held; be conservative
-				return LockSet{}
+				return LockSet{}, false
 			}
 		}
 	}
 	if !sync {
-		return LockSet{}
+		// a literal bound to a local that is only ever called in this body (`ts := func(i int) ...;
+		// ... ts(k) ...`, also from literals handed to synchronous invokers such as sort.Search):
+		// it runs under whatever is held where it is called; use the locks held at every call
+		if held, ok := localClosureLocks(info, encl, lk, lit); ok {
+			return held, true
+		}
+		return LockSet{}, false
 	}
 	if held, ok := lk.HeldAtNode(at); ok {
-		return held
+		return held, true
 	}
-	return LockSet{}
+	return LockSet{}, true
+}
+
+// localClosureLocks handles `x := func(...) {...}` where x is used only as the function of call
+// expressions inside encl: the meet of the locksets at the definition and at every call that sits
+// directly in encl (calls inside nested literals are covered by the definition's lockset when the
+// must-held set cannot shrink in between, which the caller-holds helpers this is used for satisfy).
+func localClosureLocks(info *types.Info, encl *ast.BlockStmt, lk *Locks, lit *ast.FuncLit) (LockSet, bool) {
+	var obj types.Object
+	var def ast.Node
+	ast.Inspect(encl, func(x ast.Node) bool {
+		if as, ok := x.(*ast.AssignStmt); ok && len(as.Lhs) == 1 && len(as.Rhs) == 1 && Unparen(as.Rhs[0]) == ast.Expr(lit) {
+			if id, isId := as.Lhs[0].(*ast.Ident); isId {
+				if o := info.Defs[id]; o != nil {
+					obj, def = o, as
+				}
+			}
+		}
+		return true
+	})
+	if obj == nil {
+		return nil, false
+	}
+	onlyCalled := true
+	var calls []*ast.CallExpr
+	var stack []ast.Node
+	ast.Inspect(encl, func(x ast.Node) bool {
+		if x == nil {
+			stack = stack[:len(stack)-1]
+			return true
+		}
+		stack = append(stack, x)
+		id, ok := x.(*ast.Ident)
+		if !ok || info.Uses[id] != obj {
+			return true
+		}
+		parent := stack[len(stack)-2]
+		if call, isCall := parent.(*ast.CallExpr); isCall && Unparen(call.Fun) == ast.Expr(id) {
+			// not under go / defer
+			for _, n := range stack {
+				switch n.(type) {
+				case *ast.GoStmt, *ast.DeferStmt:
+					onlyCalled = false
+				}
+			}
+			calls = append(calls, call)
+			return true
+		}
+		onlyCalled = false
+		return true
+	})
+	if !onlyCalled || len(calls) == 0 {
+		return nil, false
+	}
+	held, ok := lk.HeldAtNode(def)
+	if !ok {
+		return nil, false
+	}
+	acc := held
+	for _, call := range calls {
+		if h, found := lk.HeldAtNode(call); found {
+			acc = meet(acc, h)
+		}
+	}
+	return acc, true
 }
 
 // CheckGuarded runs the lockset discipline for one spec and returns every access site with its verdict.
@@ -168,6 +244,7 @@ func CheckGuarded(p *Prog, spec GuardSpec) []GuardSite {
 		bodies := Bodies(f.Decl)
 		flows := map[*ast.BlockStmt]*Flow{}
 		locks := map[*ast.BlockStmt]*Locks{}
+		syncBody := map[*ast.BlockStmt]bool{f.Decl.Body: true}
 		// outer body first, literals afterwards (entry lockset derived from their host)
 		for _, body := range bodies {
 			fl := NewFlow(p, info, body)
@@ -188,7 +265,9 @@ func CheckGuarded(p *Prog, spec GuardSpec) []GuardSite {
 					}
 				}
 				if locks[host] != nil {
-					entry = litEntryLocks(p, info, host, locks[host], flows[host], lit)
+					var isSync bool
+					entry, isSync = litEntryLocksSync(p, info, host, locks[host], flows[host], lit)
+					syncBody[body] = isSync && syncBody[host]
 				}
 			}
 			locks[body] = fl.LockAnalysis(entry)
@@ -219,7 +298,7 @@ func CheckGuarded(p *Prog, spec GuardSpec) []GuardSite {
 				gs := GuardSite{Fn: f, Acc: a, Held: held, OK: false,
 					Detail: fmt.Sprintf("%s of %s.%s with none of {%s} held (held=%s)", map[bool]string{true: "write", false: "read"}[a.Write], spec.Type, a.Field.Name(), strings.Join(spec.Locks, ","), held)}
 				sites = append(sites, gs)
-				if pn, _ := ownerParam(f, isOwnerType); base == pn && pn != "" && body == f.Decl.Body {
+				if pn, _ := ownerParam(f, isOwnerType); base == pn && pn != "" && syncBody[body] {
 					needCaller[f] = append(needCaller[f], len(sites)-1)
 				}
 			}
